@@ -142,6 +142,25 @@ def main():
         got = outer(E.DivideExpression(C(1), C(0))).evaluate({})
         if not (isinstance(got, float) and math.isnan(got)):
             fails.append({"clause": "division by zero yields NaN", "detail": f"{outer(E.DivideExpression(C(1), C(0)))} evaluated to {got!r}"})
+    # division by a zero that is NOT a Python literal: produced by a power / abs / float operation
+    # (numpy scalars divide by zero without raising), numerators of both kinds
+    P, S, M, D, A = E.PowerExpression, E.SubtractExpression, E.MultiplyExpression, E.DivideExpression, E.AbsExpression
+    zero_makers = [
+        (lambda: P(x, C(2)), {"x": 0.0}), (lambda: P(x, C(2)), {"x": 0}), (lambda: P(x, C(0.5)), {"x": 0.0}), (lambda: S(P(C(2), x), C(0.5)), {"x": -1}),
+        (lambda: S(P(C(4), x), C(2)), {"x": 0.5}), (lambda: A(x), {"x": 0.0}), (lambda: M(x, C(1.0)), {"x": 0}), (lambda: S(P(x, C(3)), C(8.0)), {"x": 2.0}),
+        (lambda: E.NegateExpression(P(x, C(2))), {"x": 0.0}), (lambda: S(x, x), {"x": 1.5}),
+    ]
+    for mk, env in zero_makers:
+        for num in (C(1), C(0), C(-2), C(2.5), P(C(2), C(0.5)), x):
+            cases += 1
+            t = D(num, mk())
+            try:
+                got = t.evaluate(dict(env))
+            except Exception as e:  # noqa: BLE001
+                fails.append({"clause": "division by zero yields NaN", "detail": f"`{t}` at {env} raised {type(e).__name__}"})
+                continue
+            if not (isinstance(got, float) and math.isnan(got)):
+                fails.append({"clause": "division by zero yields NaN", "detail": f"`{t}` at {env} evaluated to {got!r}"})
     # small trees (two operators) over a small grid: exact integer arithmetic through nesting
     depth_vals = SMALL if tier == "quick" else SMALL + [2**63 - 1, -(2**63)]
     for a, b, c in itertools.product(depth_vals, repeat=3):
